@@ -77,6 +77,12 @@ def lang_checks(failures, name, regex, R, alphabet, words):
             if got != R.accepts(wd):
                 failures.append(fail(name + ".accepts", "wrong:%s" % got, wd))
                 break
+    with guard(failures, name + ".accepts_iterable_forms"):
+        for wd in words[12:24]:
+            got = (regex.accepts(tuple(wd)), regex.accepts(x for x in wd))
+            if any(g != R.accepts(wd) for g in got):
+                failures.append(fail(name + ".accepts", "wrong_for_tuple_or_generator:%s" % (got,), wd))
+                break
     with guard(failures, name + ".to_epsilon_nfa"):
         M = ref_fa.from_lib(regex.to_epsilon_nfa())
         w = ref_fa.equivalent(R, M, set(alphabet) | M.alphabet)
